@@ -185,7 +185,7 @@ def to_events(log, factory, nworkers):
                     flush(); ev.append([EV["Check"]])
             elif op == "rd" and a[0] == "cnt":
                 flush(); ev.append([EV["Check"]])
-            elif op == "get" and a[0] == "results":
+            elif op in ("get", "get_nb") and a[0] == "results":
                 ev.append([EV["Get"]]); pending_proc = True
             elif op == "clear" and a[0].endswith(".run"):
                 flush(); ev.append([EV["Flow"]])
